@@ -237,3 +237,9 @@ func vh_C19_L5_ack_policy_bundled() {
 	vassert(sacks == 1, "the SACK is emitted by the next writer pass")
 	vcover("end")
 }
+
+// createSelectiveAckChunkNoGaps builds the SACK fields other than the gap blocks through
+// the same accessors createSelectiveAckChunk uses (the bitmap scan is decided in C05).
+func (a *Association) createSelectiveAckChunkNoGaps() *chunkSelectiveAck {
+	return &chunkSelectiveAck{cumulativeTSNAck: a.peerLastTSN(), advertisedReceiverWindowCredit: a.getMyReceiverWindowCredit()}
+}
